@@ -101,6 +101,6 @@ UNIT = Unit('U-BSH', TEMPLATE,
 TRUSTED = common.TRUSTED_STR + [
     'std::process::exit ends the process with the status given and never returns (shim vx_process_exit, `ensures false`)',
     'str::parse::<i32> is uninterpreted: which texts are numbers, and which number, is exercised by the bounded cases only',
-    'scripting::run_script and parser_line::tokens_to_args are external here (run_script is outside the verifier: file I/O and regexes; tokens_to_args has its contract in U-TOK)',
+    'scripting::run_script and parser_line::tokens_to_args are external here (run_script is under contract in U-SCRIPT from the text of the file on -- locating and reading the file is an opaque shim there; tokens_to_args has its contract in U-TOK)',
     'that `source` runs the file in the calling shell rests on the type: run_script gets the one &mut Shell the builtin was given',
 ]
